@@ -55,6 +55,9 @@ type c13Scenario struct {
 	// for good before Close() arrives (ok = end of the stream, filter_empty = its collections were dropped); the close request
 	// for that vBucket is answered "no such stream", as a node does
 	EndedBefore string `json:"ended_before,omitempty"`
+	// StreamsEnd (interface-level client, state idle): nobody calls Close(); every vBucket stream ends for good (clean end)
+	// and the client stops by itself
+	StreamsEnd bool `json:"streams_end,omitempty"`
 }
 
 type c13Result struct {
@@ -284,7 +287,11 @@ func c13Child(raw json.RawMessage) any {
 			res.OpenVbs = len(cl.obs)
 			cl.mu.Unlock()
 		}
-		if sc.Signal {
+		if sc.StreamsEnd && client == couchbase.Client(cl) {
+			for v := 0; v < sc.NVb; v++ {
+				cl.serverEnd(uint16(v), nil)
+			}
+		} else if sc.Signal {
 			p, _ := os.FindProcess(os.Getpid())
 			_ = p.Signal(os.Interrupt)
 		} else {
@@ -604,6 +611,10 @@ func c13Gen(rt *rapid.T) c13Scenario {
 	if !sc.OldServer && sc.NVb >= 2 && !sc.Mitigate && !strings.HasPrefix(sc.State, "rebalance_") && rapid.IntRange(0, 1).Draw(rt, "endedbefore") == 0 {
 		sc.EndedBefore = rapid.SampledFrom([]string{"ok", "filter_empty"}).Draw(rt, "endedcause")
 	}
+	if sc.State == "idle" && !sc.Mitigate && sc.EndedBefore == "" && sc.EndInClose == "" && rapid.IntRange(0, 2).Draw(rt, "streamsend") == 0 {
+		sc.StreamsEnd = true
+		sc.PingFails = false
+	}
 	sc.CBMember = sc.Mitigate && sc.State != "gate_blocked" && !strings.HasPrefix(sc.State, "rebalance_") && rapid.IntRange(0, 3).Draw(rt, "cbmember") > 0
 	if sc.State == "monitor_inflight" {
 		sc.CBMember = true
@@ -672,6 +683,9 @@ func TestC13_Shutdown(t *testing.T) {
 		}
 		if scs[i].CBMember {
 			labs = append(labs, "couchbase_membership")
+		}
+		if scs[i].StreamsEnd {
+			labs = append(labs, "stopped_by_stream_ends")
 		}
 		if scs[i].EndedBefore != "" {
 			labs = append(labs, "stream_ended_for_good_before_close")
